@@ -12,8 +12,13 @@ import Frp.Model.Str
     enter  m …    group lock: `TCPGroup.Listen` / `HTTPGroup.Register` / `HTTPConnectListen`
     leaveL m gid  tcp/tcpmux `…GroupListener.Close` → `CloseListener` (group lock, then controller lock inside RemoveGroup)
     leaveG m g    http `HTTPGroupController.UnRegister` (controller lock held over the group lock)
-    accept c gid  the worker goroutine took connection c from the real listener
-    handoff c m   the worker's `acceptCh <- c` inside `PanicToError`, received by member m
+    accept c gid  connection c completed its handshake with the group's real listener: it is in the
+                  kernel backlog or already in the worker's hands (`tcpLn.Accept()` returned it)
+    handoff c m   the worker's `acceptCh <- c` inside `PanicToError`, received by member m which is
+                  inside `TCPGroupListener.Accept` at that moment (rendezvous: the channel is unbuffered)
+    send c        the same send completing WITHOUT a receiver, into the channel's buffer — enabled only
+                  while fewer than `cap` connections are buffered, i.e. never for `make(chan net.Conn)`
+    recv m gid    member m's `<-ln.group.Accept()` taking the oldest buffered connection
     request gid   http `createConn` / `chooseEndpoint` (atomic index increment, RLock)
     squat/unsquat another process / a non-group proxy takes or frees an endpoint (port or route)
 
@@ -90,6 +95,7 @@ structure Obj where
   realPort : Nat := 0           -- tg.realPort: what ports.Manager handed out = what is reported
   index : Nat := 0              -- http: g.index
   workerDead : Bool := false    -- the worker returned after a failed send
+  queue : List Nat := []        -- connections sitting in acceptCh's buffer, oldest first (at most `St.cap`)
 deriving DecidableEq, Repr
 
 /-- proposed repairs (hooks/C13-fix-*.patch), all off at the pinned tree -/
@@ -122,6 +128,8 @@ structure St where
   limbo : List Nat := []                    -- open, held by nobody
   dropped : List Nat := []                  -- closed by the worker without delivery
   panicked : Bool := false                  -- an unrecovered panic happened: frps is gone
+  cap : Nat := 0                            -- capacity of every hand-off channel: `make(chan net.Conn)` = 0 in
+                                            -- NewTCPGroup / TCPGroup.Listen / NewTCPMuxGroup / HTTPConnectListen
 deriving Repr
 
 def St.obj (s : St) (gid : Nat) : Obj := s.objs[gid]?.getD {}
@@ -204,6 +212,8 @@ inductive Label
   | leaveG (m g : Str)
   | accept (c gid : Nat)
   | handoff (c : Nat) (m : Str)
+  | send (c : Nat)
+  | recv (m : Str) (gid : Nat)
   | request (gid : Nat)
   | squat (k : EpKey)
   | unsquat (k : EpKey)
@@ -239,6 +249,7 @@ def step (fx : Fix) (s : St) : Label → Option (St × Res)
       some ({ s with panicked := true }, .crash)
     else
       -- close(acceptCh); tcpLn.Close(); portManager.Release(realPort); ctl.RemoveGroup(tg.group) — by NAME
+      -- (whatever is buffered in acceptCh stays inside the closed channel: `queue` is not touched)
       some ({ s.setObj gid { o with members := [], chClosed := true, lnOpen := false } with
                 table := s.table.filter (fun e => !(e.1 == o.name)) }, .none)
   | .leaveG m g =>
@@ -269,7 +280,32 @@ def step (fx : Fix) (s : St) : Label → Option (St × Res)
         let s1 := s0.setObj gid { o with workerDead := true }
         some (if fx.closeOnFail then { s1 with dropped := c :: s1.dropped }
               else { s1 with limbo := c :: s1.limbo }, .stranded)
-      else if m ∈ o.members then some ({ s0 with delivered := (c, m) :: s0.delivered }, .to m)
+      -- a sender meets a waiting receiver only when nothing is buffered ahead of it
+      else if m ∈ o.members ∧ o.queue = [] then some ({ s0 with delivered := (c, m) :: s0.delivered }, .to m)
+      else none
+  | .send c =>
+    if s.panicked then none else
+    match s.inflight.lookup c with
+    | none => none
+    | some gid =>
+      let o := s.obj gid
+      let s0 := { s with inflight := s.inflight.filter (fun x => !(x.1 == c)) }
+      if o.chClosed then
+        let s1 := s0.setObj gid { o with workerDead := true }
+        some (if fx.closeOnFail then { s1 with dropped := c :: s1.dropped }
+              else { s1 with limbo := c :: s1.limbo }, .stranded)
+      else if o.queue.length < s.cap then some (s0.setObj gid { o with queue := o.queue ++ [c] }, .none)
+      else none      -- buffer full (always, for an unbuffered channel): the worker stays blocked
+  | .recv m gid =>
+    if s.panicked ∨ s.kind = .http then none else
+    let o := s.obj gid
+    -- only a member calls Accept; `close(acceptCh)` does not discard what is buffered, but after the
+    -- last leave there is nobody left to receive it
+    match o.queue with
+    | [] => none
+    | c :: q =>
+      if m ∈ o.members then
+        some ({ s.setObj gid { o with queue := q } with delivered := (c, m) :: s.delivered }, .to m)
       else none
   | .request gid =>
     let o := s.obj gid
